@@ -771,6 +771,29 @@ def generics():
             e = Fld(Var("gx"), "v") if how == "field" else MCall(Var("gx"), "get")
             w = World().fill("main", [Decl(GT[tn], "gx", copy.deepcopy(SRC[tn])), Decl(TY[member_t], "r0", e)])
             out.append(case("gen:member:%s:%s:%s" % (tn, member_t, how), "type", w, "%s of a %s read as %s" % (how, tn, member_t)))
+    # a receiver whose static type is a type parameter bounded by a generic instantiation: members have the bound's substituted types
+    def bounded_world(stmts, field_recv=False):
+        w = World().fill("main", [Decl(C("Cell", [C("Item")]), "cc", New("Cell", New("Item", I(3)), targs=[C("Item")])),
+                                  Decl(C("Filler", [C("Cell", [C("Item")])]), "ff", New("Filler", Var("cc"), targs=[C("Cell", [C("Item")])])),
+                                  Expr(MCall(Var("ff"), "fill", Var("cc")))])
+        w.classes.append(Class("Item", fields=[Field(TY["int"], "weight")], ctors=[Ctor([Param(TY["int"], "w0")], [Expr(FAsg(This(), "weight", Var("w0")))])]))
+        w.classes.append(Class("Thing", ctors=[Ctor([], [], default=True)]))
+        w.classes.append(Class("Cell", fields=[Field(P("E"), "item")], methods=[Method("get", [], P("E"), [Ret(Var("item"))]), Method("put", [Param(P("E"), "x")], VOID, [Expr(FAsg(This(), "item", Var("x")))])],
+                               ctors=[Ctor([Param(P("E"), "first")], [Expr(FAsg(This(), "item", Var("first")))])], tparams=["E"]))
+        filler = Class("Filler", fields=[Field(P("T"), "held")], methods=[Method("fill", [Param(P("T"), "c")], VOID, stmts)],
+                       ctors=[Ctor([Param(P("T"), "h0")], [Expr(FAsg(This(), "held", Var("h0")))])], tparams=["T"])
+        filler["tbounds"] = {"T": "Cell<Item>"}
+        w.classes.append(filler)
+        return w
+    for rname, recv in (("param", lambda: Var("c")), ("field", lambda: Fld(This(), "held"))):
+        for vname, val in (("Item", lambda: New("Item", I(1))), ("Thing", lambda: New("Thing")), ("null", Null), ("int", lambda: I(4)), ("Cell", lambda: Var("c"))):
+            out.append(case("gen:bounded:%s:store:%s" % (rname, vname), "type", bounded_world([Expr(FAsg(recv(), "item", val()))]), "%s stored into T.item (T extends Cell<Item>)" % vname))
+            out.append(case("gen:bounded:%s:put:%s" % (rname, vname), "type", bounded_world([Expr(MCall(recv(), "put", val()))]), "%s passed to T.put (T extends Cell<Item>)" % vname))
+        for tname, ty_ in (("Item", C("Item")), ("Thing", C("Thing")), ("int", TY["int"])):
+            out.append(case("gen:bounded:%s:read:%s" % (rname, tname), "type", bounded_world([Decl(ty_, "r0", Fld(recv(), "item"))]), "T.item read as %s" % tname))
+            out.append(case("gen:bounded:%s:get:%s" % (rname, tname), "type", bounded_world([Decl(ty_, "r0", MCall(recv(), "get"))]), "T.get() read as %s" % tname))
+        out.append(case("gen:bounded:%s:deep" % rname, "type", bounded_world([Decl(TY["int"], "r0", Fld(Fld(recv(), "item"), "weight")), Expr(FAsg(Fld(recv(), "item"), "weight", I(2)))]), "T.item.weight"))
+        out.append(case("gen:bounded:%s:deep:bad" % rname, "type", bounded_world([Expr(FAsg(Fld(recv(), "item"), "weight", S("s")))]), "string into T.item.weight"))
     return out
 
 
